@@ -575,5 +575,37 @@ Proof. intros [n off Fr pend k j D Hp Hg Hlr Hcr Hh Hlim Hwin Hcl] Henv.
     assert (Hnext : part (plog p) ((n + 1) mod 3) = []).
     { apply (next_clean (mkSys (F := F) p im asm false) n off len Hp Hofft Hok Hclosed Hlt). }
     apply (rep_trip p im asm false sp p' n off Fr k j D req); auto; lia. Qed.
+
+(* ---- every step ---- *)
+Theorem sys_step_rep s sp o :
+  sys_rep F pinv s sp -> env_ok F m s o = true ->
+  sys_rep F pinv (fst (sys_step F m rv s o)) (spec_step g sp (event_of (fl_pub F (sy_pub s)) o (snd (sys_step F m rv s o)))).
+Proof. intros Hrep Henv. destruct o.
+  - apply step_offer; assumption.
+  - apply step_claim; assumption.
+  - apply step_resolve; [assumption| |exact Logic.I]. unfold env_ok in Henv. lia.
+  - apply step_resolve; [assumption| |exact Logic.I]. unfold env_ok in Henv. lia.
+  - apply step_poll; [assumption|]. unfold env_ok in Henv. lia.
+  - (* SetLimit *)
+    apply step_meta; [assumption| |unfold env_ok in Henv; destruct Hrep as [n off Fr pend k j D Hp Hg _ _ _ _ _ _]; destruct Hg as (_ & Ht & _); rewrite Ht in Henv; lia].
+    destruct Hrep as [n off Fr pend k j D Hp Hg Hlr Hcr Hh Hlim Hwin Hcl].
+    pose proof (tlen_facts _ Hg) as (T1 & _). pose proof Hg as (Hleg & Ht & Hm & Hs).
+    destruct (fk_basic F pinv FK n off _ Hp) as (_ & Hn & Hcount & Hoff). unfold plog in Hcount. fold (sys_log s) in Hcount.
+    pose proof (pos_bounds _ _ _ _ _ _ _ _ Hlr Hcr Ht ltac:(lia)) as Hpb. pose proof (lr_klo _ _ _ _ _ _ _ _ Hlr) as [Hk1 Hk2].
+    unfold env_ok in Henv. rewrite Hcount, Ht in Henv. cbn [pub_op C04Proofs.op_ok]. unfold limit_ok. rewrite Ht.
+    assert (0 <= tlen / 2) by (apply Z.div_pos; lia). unfold two31 in *. nia.
+  - apply step_clean; assumption.
+  - apply step_meta; [assumption|exact Logic.I|exact Logic.I].
+  - apply step_meta; [assumption|exact Logic.I|exact Logic.I]. Qed.
+
+(* ---- every history ---- *)
+Theorem sys_run_rep : forall ops s sp,
+  sys_rep F pinv s sp -> contract F m rv s ops = true ->
+  sys_rep F pinv (sys_run F m rv s ops) (spec_run g sp (sys_events F m rv s ops)).
+Proof. induction ops as [|o r IH]; intros s sp Hrep Hc; [exact Hrep|].
+  cbn [contract] in Hc. apply andb_prop in Hc as [He Hr]. cbn [sys_run sys_events].
+  pose proof (sys_step_rep s sp o Hrep He) as Hstep.
+  destruct (sys_step F m rv s o) as [s' x]. cbn [fst snd] in *. cbn [spec_run fold_left].
+  apply IH; assumption. Qed.
 End Step.
 End Refine.
